@@ -1559,7 +1559,7 @@ impl Connection {
     async fn router(
         config: HostConnectionConfig,
         stream: impl AsyncRead + AsyncWrite,
-        receiver: mpsc::Receiver<Task>,
+        mut receiver: mpsc::Receiver<Task>,
         error_sender: tokio::sync::oneshot::Sender<ConnectionError>,
         orphan_notification_receiver: mpsc::UnboundedReceiver<RequestId>,
         router_handle: Arc<RouterHandle>,
@@ -1600,7 +1600,7 @@ impl Connection {
         let w = Self::writer(
             BufWriter::with_capacity(8192, write_half),
             &handler_map,
-            receiver,
+            &mut receiver,
             write_coalescing_delay,
         );
         let o = Self::orphaner(&handler_map, orphan_notification_receiver);
@@ -1619,6 +1619,21 @@ impl Connection {
         for (_, handler) in response_handlers {
             // Ignore sending error, request was dropped
             let _ = handler.response_sender.send(Err(error.clone().into()));
+        }
+
+        // Fail the requests that were submitted but never reached the writer.
+        // Merely dropping the receiver is not enough: a `send` that reserved its
+        // channel slot before the drop stores its `Task` afterwards, and that task
+        // (with its response sender) would stay in the channel for as long as any
+        // `Connection` handle - e.g. the one held by the waiting caller itself -
+        // is alive, i.e. forever. After `close()`, `recv()` returns `None` only
+        // once every such outstanding slot has been used or released.
+        receiver.close();
+        while let Some(task) = receiver.recv().await {
+            let _ = task
+                .response_handler
+                .response_sender
+                .send(Err(error.clone().into()));
         }
 
         // If someone is listening for connection errors notify them
@@ -1713,7 +1728,7 @@ impl Connection {
     async fn writer(
         mut write_half: impl AsyncWrite + Unpin,
         handler_map: &StdMutex<ResponseHandlerMap>,
-        mut task_receiver: mpsc::Receiver<Task>,
+        task_receiver: &mut mpsc::Receiver<Task>,
         write_coalescing_delay: Option<WriteCoalescingDelay>,
     ) -> Result<(), BrokenConnectionError> {
         // When the Connection object is dropped, the sender half
